@@ -408,6 +408,10 @@ Definition try_kw (kw : string) (t : token) (s : string) : option (token * strin
   if prefix kw s then Some (t, drop (String.length kw) s) else None.
 Definition orelse {A} (x y : option A) : option A := match x with Some _ => x | None => y end.
 
+Definition next_is (c : ascii) (s : string) : bool :=
+  match s with String c' _ => (c' =? c)%char | "" => false end.
+Definition tail (s : string) : string := match s with String _ r => r | "" => "" end.
+
 (* one token at the start of [s] (which starts with neither whitespace nor "%") *)
 Definition lex_token (opnd : bool) (s : string) : option (token * string) :=
   match s with
@@ -441,10 +445,7 @@ Definition lex_token (opnd : bool) (s : string) : option (token * string) :=
     else if (c =? "/")%char then Some (TkBin ADiv, r)
     else if (c =? "\")%char then Some (TkBin AMod, r)
     else if (c =? ".")%char then
-      match r with
-      | String "." r' => Some (TkBin AInterval, r')
-      | _ => Some (TkDot, r)
-      end
+      if next_is "." r then Some (TkBin AInterval, tail r) else Some (TkDot, r)
     else if (c =? "(")%char then Some (TkLP, r)
     else if (c =? ")")%char then Some (TkRP, r)
     else if (c =? ",")%char then Some (TkComma, r)
@@ -453,13 +454,13 @@ Definition lex_token (opnd : bool) (s : string) : option (token * string) :=
     else if (c =? "}")%char then Some (TkRB, r)
     else if (c =? "=")%char then Some (TkRel AEq, r)
     else if (c =? "!")%char then
-      match r with String "=" r' => Some (TkRel ANe, r') | _ => None end
+      if next_is "=" r then Some (TkRel ANe, tail r) else None
     else if (c =? "<")%char then
-      match r with String "=" r' => Some (TkRel ALe, r') | _ => Some (TkRel ALt, r) end
+      if next_is "=" r then Some (TkRel ALe, tail r) else Some (TkRel ALt, r)
     else if (c =? ">")%char then
-      match r with String "=" r' => Some (TkRel AGe, r') | _ => Some (TkRel AGt, r) end
+      if next_is "=" r then Some (TkRel AGe, tail r) else Some (TkRel AGt, r)
     else if (c =? ":")%char then
-      match r with String "-" r' => Some (TkIf, r') | _ => None end
+      if next_is "-" r then Some (TkIf, tail r) else None
     else if (c =? "#")%char then
       orelse (try_kw "#false" TkFalse s)
       (orelse (try_kw "#infimum" TkInf s)
